@@ -104,8 +104,33 @@ class PCT:
 # ------------------------------------------------------------------------------------------------ scheduler
 
 
+_primed = False
+
+
+def _prime_opcode_tracing():
+    """CPython >= 3.12 implements sys.settrace on top of sys.monitoring: per-instruction events are only switched on
+    by a sys.settrace() call made AFTER some frame has set f_trace_opcodes.  Without this priming the first run of a
+    process would see no `opcode` events (and a saved schedule would not replay in a fresh process)."""
+    global _primed
+    if _primed:
+        return
+
+    def dummy():
+        return None
+
+    def tr(frame, event, arg):
+        frame.f_trace_opcodes = True
+        return None
+    old = sys.gettrace()
+    sys.settrace(tr)
+    dummy()
+    sys.settrace(old)
+    _primed = True
+
+
 class DSched:
     def __init__(self, policy, line_files=(), opcode_codes=(), max_steps=200000, line_points=True):
+        _prime_opcode_tracing()
         self.policy = policy
         self.line_files = set(line_files)
         self.opcode_codes = set(opcode_codes)      # code objects traced at opcode granularity
